@@ -23,7 +23,7 @@ func init() {
 			Assumptions: []string{"accepted block timestamps are non-decreasing", "maximum balances are set once, before the history",
 				"fee rate <= 2^40 and maximum <= 2^62"},
 			Outside: []string{"more than maxEvents BuildChunk/Accept events before the final all-expiring block", "more than maxTxsPerChunk transactions per chunk",
-				"more than one chunk per accepted block", "quick tier: 2 transactions of one sponsor, chunk lists in non-decreasing order (thorough: 3 transactions, 2 sponsors, any order)",
+				"more than one chunk per accepted block", "2 transactions; quick tier: both of one sponsor (thorough: the second one of either sponsor)", "chunk lists are in non-decreasing transaction order ([A,B] but not [B,A])",
 				"errors from the inner DSMR"}},
 	}})
 }
